@@ -186,6 +186,7 @@ FILES = ("full_array.npy", "volumes.npy", "borders_array.npz", "distances_array.
 
 
 def write_and_read(io, spec, d):
+    os.makedirs(d, exist_ok=True)
     b, o, t, f, cart = spec
     REC.begin_case({"kind": "grid", "b": b, "o": o, "t": t, "factor": f, "cartesian": cart},
                    cls=[f"cartesian={cart}", f"n_b={b}"], sample=(b == "8" and o == "12"))
@@ -213,6 +214,9 @@ def run_grids(io, spec):
     rng = random.Random(spec["rseed"])
     d = tempfile.mkdtemp(prefix="verif_c20_")
     try:
+        if spec["rseed"] % 1000 == 0:
+            # a grid whose border matrix spans more than eight orders of magnitude (large position faces, tiny rotation faces)
+            write_and_read(io, ("randomQ_20", "ico_7", "[1, 2]", 2, False), os.path.join(d, "wide"))
         bs = ["1", "2", "3", "4", "5", "8", "randomQ_6", "cube4D_9"]
         os_ = ["1", "2", "3", "4", "7", "12", "cube3D_8", "randomS_9", "ico_13"]
         ts = ["[0.1]", "[0.1, 0.25]", "[0.3, 0.2, 0.5]", "linspace(0.2, 0.4, 3)", "range(1, 3)"]
@@ -305,7 +309,16 @@ def run_energy(io, spec):
                 er = io.EnergyReader(path)
                 df = er.load_energy()
                 for name in ([legends[0], legends[-1]] if len(legends) > 1 else legends):
-                    er.load_single_energy_column(name)
+                    col = er.load_single_energy_column(name)
+                    if it % 2 == 0:
+                        # hostile caller: shifts the returned column in place (as one does to plot energies relative to the minimum),
+                        # then asks the same reader object again - the second answer is judged by the same monitor
+                        try:
+                            col -= 1.5
+                        except Exception:
+                            pass
+                        er.load_single_energy_column(name)
+                        er.load_energy()
                 if len(legends) >= 2 or n_rows >= 2:
                     REC.nontrivial_case(("xvg", open(path, "rb").read()[:4000].hex()[:64], n_rows, len(legends)))
                 # csv round trip of the loaded frame (an empty column name has no csv representation in pandas: not judged)
